@@ -753,8 +753,9 @@ void LASolver::printStatistics(std::ostream & out) {
 
 bool LASolver::shouldTryCutFromProof() const {
     if (this->config.produce_inter()) { return false; }
-    static unsigned long counter = 0;
-    return ++counter % 10 == 0;
+    // a counter of this solver: a counter shared by all instances would be written from several threads at once and
+    // would make one solver's search depend on what the others do
+    return ++cutFromProofCounter % 10 == 0;
 }
 
 namespace {
